@@ -42,6 +42,14 @@ VARIANTS = [
     V("c09_fd_name", "M", MG, "finite_discrete_gibbs_kernel",
       *replace_expr("GibbsKernel([name], transition_fn)", "GibbsKernel([name + '_value'], transition_fn)"),
       note="registered key differs from the returned key", expect_rule="C09.R2"),
+    V("c09_sorted_kernels", "M", Q, "KernelSequence.__init__",
+      *replace_stmt("self._kernels = list(kernels)",
+                    "self._kernels = sorted(kernels, key=lambda k: k.identifier)"),
+      note="kernels re-ordered by identifier", expect_rule="C09.R3"),
+    V("c09_targeted_writeback", "M", "liesel/goose/interface.py", "LieselInterface.update_state",
+      *replace_stmt("self._model.update()",
+                    "self._model.update('_model_log_lik', '_model_log_prior', '_model_log_prob')"),
+      note="derived quantities outside the log-prob ancestors stay stale", expect_rule="C09.R4"),
     # ---- twins
     V("c09_t_tmp", "T", Q, "KernelSequence.transition",
       *replace_stmt("model_state = result.model_state",
